@@ -83,6 +83,22 @@ type rig struct {
 	release chan struct{}
 }
 
+// the codec: decimal digits, except that the value 0 — a legal object, different from the default New(k) = 1000+k —
+// serializes to ZERO bytes (an empty byte slice stored in Badger is still a stored value)
+func encodeVal(v int) []byte {
+	if v == 0 {
+		return []byte{}
+	}
+	return []byte(strconv.Itoa(v))
+}
+
+func decodeVal(b []byte) (int, error) {
+	if len(b) == 0 {
+		return 0, nil
+	}
+	return strconv.Atoi(string(b))
+}
+
 func keyName(i int) string { return "k" + strconv.Itoa(i) }
 func keyIdx(k string) int {
 	i, _ := strconv.Atoi(strings.TrimPrefix(k, "k"))
@@ -97,10 +113,10 @@ func (r *rig) newCache() {
 		r.mu.Lock()
 		r.saves = append(r.saves, [2]int{keyIdx(k), o.Val})
 		r.mu.Unlock()
-		return []byte(strconv.Itoa(o.Val)), nil
+		return encodeVal(o.Val), nil
 	}
 	c.FromBytes = func(k string, b []byte) (interface{}, error) {
-		n, err := strconv.Atoi(string(b))
+		n, err := decodeVal(b)
 		if err != nil {
 			return nil, err
 		}
@@ -144,7 +160,7 @@ func (r *rig) diskOf(i int) (int, bool) {
 			return err
 		}
 		return item.Value(func(b []byte) error {
-			n, err := strconv.Atoi(string(b))
+			n, err := decodeVal(b)
 			if err != nil {
 				return err
 			}
@@ -443,10 +459,14 @@ func gen(r *rand.Rand, idx int, tier string) Input {
 		in.Stream = "sync"
 	}
 	n := lib.Range(r, 3, 40)
-	val := 1
+	ctr := 1
 	holding := 0
 	for i := 0; i < n; i++ {
-		val++
+		ctr++
+		val := ctr
+		if lib.Chance(r, 0.15) {
+			val = 0 // the object whose serialized form is empty
+		}
 		k := r.Intn(in.Keys)
 		x := r.Intn(100)
 		switch {
@@ -506,6 +526,15 @@ func gen(r *rand.Rand, idx int, tier string) Input {
 
 // exhaustive small scope: all sequences over 2 keys of put/read/mutate/delete (per key), evict 1/2, evict 1, flush;
 // the first keyed operation uses key 0 (the two keys are interchangeable).
+// values of the enumerated histories: distinct per position, except that the first operation uses the value 0,
+// whose serialized form is empty
+func enumVal(i int) int {
+	if i == 0 {
+		return 0
+	}
+	return 10 + i
+}
+
 func enum(tier string) []Input {
 	depth := 3
 	if tier == "thorough" {
@@ -536,7 +565,7 @@ func enum(tier string) []Input {
 			if interesting || len(prefix) <= 3 {
 				in := Input{Stream: "enum", Keys: 2}
 				for i, s := range prefix {
-					in.Ops = append(in.Ops, Op{Op: s.op, Key: s.key, Val: 10 + i, Num: s.num, Den: s.den})
+					in.Ops = append(in.Ops, Op{Op: s.op, Key: s.key, Val: enumVal(i), Num: s.num, Den: s.den})
 				}
 				out = append(out, in)
 			}
@@ -568,7 +597,7 @@ func enum(tier string) []Input {
 		if hasWB {
 			in := Input{Stream: "enum-writeback", Keys: 2}
 			for i, s := range prefix {
-				in.Ops = append(in.Ops, Op{Op: s.op, Key: s.key, Val: 10 + i, Num: s.num, Den: s.den})
+				in.Ops = append(in.Ops, Op{Op: s.op, Key: s.key, Val: enumVal(i), Num: s.num, Den: s.den})
 			}
 			out = append(out, in)
 		}
